@@ -17,6 +17,25 @@ CHECKS = {
                 design="DESIGN.md §4 C09"),
 }
 
+CHECKS.update({
+    "C05": dict(level="other",
+                text="Decides the structural clauses: empty self-rooted write set on every error exit of the stateful transport read/write (all paths, both backends), complete inventory of writes to the counter (+1 after success only, explicit setter only on the receiving index), nonce operand is the counter, role table. Does not decide that an out-of-order message is rejected (AEAD strength).",
+                technique="interprocedural error-path write-set (effect) analysis over MIR + dominance/must-facts + call-site inventory",
+                design="DESIGN.md §4 C05"),
+    "C06": dict(level="other",
+                text="History property decided through the invariants that collapse the quantifier: encrypt is always followed by n+=1 (post-dominance), key change implies n=0, fresh ephemeral before every pubkey read, roll-back completeness of failed handshake calls (error-path write set minus provably restored paths inside an allow-table), no error exit after the caller's payload was encrypted, static key constant. Not decided: the history quantifier beyond these conditions.",
+                technique="MIR effect analysis with snapshot/restore kills + dominance / reachability rules + write inventories",
+                design="DESIGN.md §4 C06"),
+    "C07": dict(level="other",
+                text="For the handshake entry points the may-write set on every error exit (all tokens, all failure points), minus what checkpoint/restore provably restores, must lie in an allow-table of dead paths with checked reasons; progress/turn only on the Ok edge; set_psk and stateful transport write nothing on error exits. State equality is decided; byte-equality of the continued session follows from it and is not separately decided.",
+                technique="interprocedural error-path write-set analysis with snapshot/restore reasoning over MIR",
+                design="DESIGN.md §4 C07"),
+    "C12": dict(level="proof",
+                text="Exhaustive finite cross-check: prerequisite predicates vs token table for 38 patterns x 2 roles, token table vs Noise rev 34 table and vs the §7.3 validity predicates, DH operand availability for every row and role, build-time guards/variants/order and missing-PSK arms from MIR. All obligations discharged.",
+                technique="HIR table extraction + cross-table comparison with spec tables + MIR must-fact guards",
+                design="DESIGN.md §4 C12"),
+})
+
 PENDING_REASON = "check under construction in this session (static rule not armed yet); see DESIGN.md §4"
 
 
